@@ -53,8 +53,20 @@ NameToks == {"l", "d", "0", "-", "_", ".", "U", "u2", "FW.", "xn--", "RUN15", "R
 JSONToks == {"null", "true", "false", "0", "-", "1e9", "QUOTE", "BSL", "{", "}", "[", "]", ",", ":",
              "SP", "TAB", "NL", "CR", "http://h", "esc-u0041", "esc-ud800", "u2", "BAD", "NUL", "nul", "Null"}
 
+(* Inputs beyond every fixed-size buffer of the standard library (bufio's 64 KiB token limit, *)
+(* 4 KiB read buffers): a run of 70 000 bytes next to the separators of the line grammars.   *)
+(* The feeder keeps its receivers and runs its inputs one after the other, so what a huge    *)
+(* input leaves behind meets the next small one.                                             *)
+HugeToks == {"RUN70K", "RUN64K", "NL", "SP", "1.2.3.4", "name", "#", ".", "u2"}
+
+(* address/prefix texts: address forms of both families (dotted tails, mapped, zoned) on both sides of a slash *)
+PrefixToks == {"1.2.3.4", "255.255.255.0", "::1", "::", "::ffff:1.2.3.4", "::255.255.255.0", "64:ff9b::1.2.3.4", "fe80::1",
+               "%z", "/", "0", "8", "32", "33", "128", "129", "-1", "+8", "08", ".", ":", "SP", "u2"}
+
 Alphabet ==
     CASE Family = "bytes"    -> ByteAlphabet
+      [] Family = "prefix"   -> PrefixToks
+      [] Family = "huge"     -> HugeToks
       [] Family = "json"     -> JSONToks
       [] Family = "arpa"     -> ArpaLabels
       [] Family = "arparun"  -> ArpaLabels
